@@ -41,6 +41,15 @@ type jobSpec struct {
 	Blobs    int    `json:"blobs,omitempty"`
 	Mode     string `json:"mode,omitempty"`      // "" | packfile | compaction
 	PackSafe bool   `json:"pack_safe,omitempty"` // packfile mode: the file's blobs are never removed
+	// Owners: that many clients own OwnBlobs blobs each which no other client writes; the owner
+	// runs receive / read / remove / read sequences on them (every read directly follows the
+	// acknowledged write of the same client) while all the other traffic goes on.
+	// Mode "ackearly" (replica with minWritesForSuccess < replicas): the own blobs are pre-loaded into
+	// every replica, each is removed once and received once afterwards (a remove is never issued
+	// while replica uploads may still be in flight), shared blobs are never removed, and one
+	// replica is slow in RemoveBlobs.
+	Owners   int `json:"owners,omitempty"`
+	OwnBlobs int `json:"own_blobs,omitempty"`
 	// index histories
 	Permanodes int    `json:"permanodes,omitempty"`
 	Claims     int    `json:"claims,omitempty"`
@@ -48,6 +57,12 @@ type jobSpec struct {
 	Readers    int    `json:"readers,omitempty"`
 	Reads      int    `json:"reads,omitempty"`
 	KV         string `json:"kv,omitempty"`
+	// Deps: files (chunks + file blob), directories (static-set + directory) and a second signer
+	// (key + permanodes + claims) are delivered concurrently and out of order
+	Deps bool `json:"deps,omitempty"`
+	// Handler: readers also call the search handler's entry points without harness locking, and a
+	// parent permanode with camliMember claims is delivered (EdgesTo)
+	Handler bool `json:"handler,omitempty"`
 }
 
 type violRec struct {
@@ -156,8 +171,10 @@ type storeRun struct {
 	res   *histResult
 	S     blobserver.Storage
 	sub   blob.SubFetcher
-	keys  []sto.Blob // hot blobs first, then fillers
+	keys  []sto.Blob // hot blobs first, then fillers, then own blobs
 	nHot  int
+	own0  int // index of the first own blob (len(keys) when there are none)
+	yield func(inject.Call)
 	idx   map[blob.Ref]int
 	clk   *clock
 	mu    sync.Mutex // guards res.Viols from client goroutines
@@ -195,7 +212,8 @@ func (sr *storeRun) exec(c *call) {
 			fn := "?"
 			if fr := ev.PerkeepFrames(st); fr != "" {
 				fn = strings.Fields(strings.Split(fr, "\n")[0])[0]
-				if i := strings.LastIndex(fn, "("); i > 0 && strings.HasSuffix(fn, ")") && !strings.Contains(fn[i:], "*") {
+				// drop the argument list ("(0xc000…, " or "(...)"), keep a receiver such as "(*Storage)"
+				if i := strings.LastIndex(fn, "("); i > 0 && !strings.Contains(fn[i:], "*") {
 					fn = fn[:i]
 				}
 				fn = shortFunc(fn)
@@ -219,6 +237,11 @@ func (sr *storeRun) exec(c *call) {
 		rc, size, err := sr.S.Fetch(ctx, b.Ref)
 		var data []byte
 		if err == nil {
+			if sr.yield != nil && c.Call%3 == 0 {
+				// the client is slow to start reading the body it was handed
+				sr.yield(inject.Call{})
+				sr.yield(inject.Call{})
+			}
 			data, err = io.ReadAll(rc)
 			rc.Close()
 			if err != nil {
@@ -418,16 +441,44 @@ func runStoreHistory(root string, job jobSpec) *histResult {
 	}
 	defer os.RemoveAll(dir)
 	plan := inject.NewPlan()
-	plan.Yield = inject.Jitter(job.Seed)
+	jit := inject.Jitter(job.Seed)
+	plan.Yield = jit
+	var slowLeaf atomic.Value // string: the replica whose RemoveBlobs is slow (ackearly mode)
+	var slowRemoves atomic.Int64
+	if job.Mode == "ackearly" {
+		plan.Yield = func(c inject.Call) {
+			jit(c)
+			if name, _ := slowLeaf.Load().(string); name != "" && c.Layer == name && c.Op == "RemoveBlobs" {
+				slowRemoves.Add(1)
+				time.Sleep(time.Duration(300+c.Index%7*100) * time.Microsecond)
+			}
+		}
+	}
 	env := &sto.Env{Dir: dir, Plan: plan}
-	b, err := sto.Build(env, job.Spec)
+	var b *sto.Built
+	lb, local, err := buildLocal(dir, plan, job.Spec)
+	if local && err == nil {
+		b = lb.b
+		defer lb.close()
+	} else if !local {
+		b, err = sto.Build(env, job.Spec)
+		if err == nil {
+			defer b.Close()
+		}
+	}
 	if err != nil {
 		res.Inconclusive = append(res.Inconclusive, fmt.Sprintf("cannot build %s: %v", job.Spec, err))
 		return res
 	}
-	defer b.Close()
+	if job.Mode == "ackearly" {
+		if len(b.Leaves) < 2 {
+			res.Inconclusive = append(res.Inconclusive, fmt.Sprintf("ackearly mode needs the replicas as harness-owned leaves, %s has %d", job.Spec, len(b.Leaves)))
+			return res
+		}
+		slowLeaf.Store(b.Leaves[int(job.Seed&0xffff)%len(b.Leaves)].Name)
+	}
 
-	sr := &storeRun{job: job, res: res, S: b.S, clk: &clock{}, label: job.Label, idx: map[blob.Ref]int{}}
+	sr := &storeRun{job: job, res: res, S: b.S, clk: &clock{}, label: job.Label, idx: map[blob.Ref]int{}, yield: jit}
 	if sf, ok := b.S.(blob.SubFetcher); ok {
 		sr.sub = sf
 	}
@@ -459,6 +510,16 @@ func runStoreHistory(root string, job jobSpec) *histResult {
 			sr.keys = append(sr.keys, sto.FromBytes(d))
 		}
 	}
+	sr.own0 = len(sr.keys)
+	if job.Owners > 0 && job.OwnBlobs > 0 {
+		orng := rand.New(rand.NewSource(job.Seed ^ 0x0b10b5))
+		for i := 0; i < job.Owners*job.OwnBlobs; i++ {
+			d := make([]byte, 40+orng.Intn(1200))
+			orng.Read(d)
+			copy(d, fmt.Sprintf("c14 own blob %d of %s;", i, job.ID))
+			sr.keys = append(sr.keys, sto.FromBytes(d))
+		}
+	}
 	for i, k := range sr.keys {
 		sr.idx[k.Ref] = i
 	}
@@ -482,7 +543,24 @@ func runStoreHistory(root string, job jobSpec) *histResult {
 		res.Events = append(res.Events, "preloaded-lower")
 	}
 
+	if job.Mode == "ackearly" {
+		// the own blobs start out on every replica
+		var pre []sto.Blob
+		for k := sr.own0; k < len(sr.keys); k++ {
+			pre = append(pre, sr.keys[k])
+			initial[k] = true
+		}
+		for _, l := range b.Leaves {
+			if err := sto.StoreAll(l.Inner, pre); err != nil {
+				res.Inconclusive = append(res.Inconclusive, fmt.Sprintf("preload replica %s: %v", l.Name, err))
+				return res
+			}
+		}
+		res.Events = append(res.Events, "own-blobs-preloaded-on-every-replica")
+	}
+
 	canRemove := b.Caps.Remove
+	canRemoveShared := canRemove && job.Mode != "ackearly"
 	nClients := job.Clients
 	calls := make([][]*call, nClients+1)
 
@@ -529,7 +607,7 @@ func runStoreHistory(root string, job jobSpec) *histResult {
 			}
 			c.Limit = []int{1, 2, 3, sr.nHot, 1000, 1000}[crng.Intn(6)]
 		default:
-			if !canRemove {
+			if !canRemoveShared {
 				if crng.Intn(2) == 0 {
 					c.Op, c.Keys = "receive", []int{pick()}
 				} else {
@@ -573,6 +651,10 @@ func runStoreHistory(root string, job jobSpec) *histResult {
 				mine = append(mine, c)
 				sr.exec(c)
 			}
+			var script []*call
+			if cl < job.Owners {
+				script = sr.ownScript(crng, cl, canRemove)
+			}
 			<-start
 			if job.Mode == "packfile" && cl == 0 {
 				// the uploader: chunks first, the file schema blob last (what pk-put does)
@@ -591,7 +673,19 @@ func runStoreHistory(root string, job jobSpec) *histResult {
 					do(&call{Client: cl, Op: "receive", Keys: []int{myFill[0]}})
 					myFill = myFill[1:]
 				}
+				if len(script) > 0 && crng.Intn(100) < 35 {
+					// a write on an own blob and the read that follows it, back to back
+					do(script[0])
+					script = script[1:]
+					for len(script) > 0 && script[0].Op != "receive" && script[0].Op != "remove" {
+						do(script[0])
+						script = script[1:]
+					}
+				}
 				do(genOp(crng, cl))
+			}
+			for _, c := range script {
+				do(c)
 			}
 			for _, f := range myFill {
 				do(&call{Client: cl, Op: "receive", Keys: []int{f}})
@@ -637,10 +731,25 @@ func runStoreHistory(root string, job jobSpec) *histResult {
 	for i := 0; i < sr.nHot; i++ {
 		audit(&call{Op: "audit-fetch", Keys: []int{i}})
 	}
+	for i := sr.own0; i < len(sr.keys); i++ {
+		audit(&call{Op: "audit-fetch", Keys: []int{i}})
+	}
+	if sr.own0 < len(sr.keys) {
+		res.Events = append(res.Events, "own-blob-sequences")
+	}
+	if slowRemoves.Load() > 0 {
+		res.Events = append(res.Events, "slow-replica-remove")
+	}
 	audit(&call{Op: "audit-enumerate", Limit: 100000})
 
 	// ---- observed structure
-	if hasKind(job.Spec, "diskpacked") {
+	if lb != nil && lb.vfsSteps != nil && lb.vfsSteps.Load() > 0 {
+		res.Events = append(res.Events, "vfs-step-yields")
+	}
+	if lb != nil && lb.kvName != "" && planSaw(plan, "CommitBatch") {
+		res.Events = append(res.Events, "ondisk-kv-yields-"+fmt.Sprint(job.Spec.P["meta"]))
+	}
+	if hasKind(job.Spec, "diskpacked") || hasKind(job.Spec, "diskpacked-wrapkv") {
 		if n := countPacks(dir); n > 1 {
 			res.Events = append(res.Events, "pack-rollover")
 		}
@@ -689,6 +798,7 @@ func (sr *storeRun) judge(calls [][]*call, initial map[int]bool) {
 	for _, c := range flat {
 		for _, bad := range c.bad {
 			var ctxt []string
+			ovSet := map[string]bool{}
 			for _, o := range flat {
 				if o == c || (o.Op != "receive" && o.Op != "remove" && o.Op != "remove-multi") || o.Ret < c.Call || o.Call > c.Ret {
 					continue
@@ -697,11 +807,25 @@ func (sr *storeRun) judge(calls [][]*call, initial map[int]bool) {
 					for _, ck := range c.Keys {
 						if k == ck {
 							ctxt = append(ctxt, fmt.Sprintf("[%d,%d] c%d %s of %s", o.Call, o.Ret, o.Client, o.Op, short(sr.keys[k].Ref)))
+							ovSet[strings.TrimSuffix(o.Op, "-multi")] = true
 						}
 					}
 				}
 			}
+			ovKinds := "nothing"
+			if len(ovSet) > 0 {
+				var ks []string
+				for k := range ovSet {
+					ks = append(ks, k)
+				}
+				sort.Strings(ks)
+				ovKinds = strings.Join(ks, "+")
+			}
 			what := bad.What + fmt.Sprintf("; the call ran during [%d,%d]; overlapping writes on the same blob: %v", c.Call, c.Ret, ctxt)
+			if strings.HasPrefix(bad.Sig, "content-") {
+				// name the racing pair: <read>||<kinds of the writes that overlapped it>
+				bad.Sig += "||" + ovKinds
+			}
 			res.viol(bad.Sig, what, map[string]any{"case_id": sr.job.ID, "job": sr.job, "call": c, "overlapping_writes": ctxt})
 		}
 		res.Ops[c.Op]++
@@ -782,7 +906,12 @@ func (sr *storeRun) judge(calls [][]*call, initial map[int]bool) {
 			for _, o := range min {
 				lines = append(lines, o.String())
 			}
-			res.viol("nonlinearizable/"+sr.label+"/"+anomalyClass(min),
+			class := "nonlinearizable"
+			if k >= sr.own0 {
+				// a blob only its owner writes, one call at a time: no write-write race can explain it
+				class = "nonlinearizable-own-blob"
+			}
+			res.viol(class+"/"+sr.label+"/"+anomalyClass(min)+"/"+racePair(min, ops),
 				fmt.Sprintf("[%s] the history of blob %s (%d operations, %d after minimisation; unexplained reads: "+readKinds(min)+") has no linearization against the {absent,present} register; minimal witness (times are ticks of one global counter; 'init' = blob pre-loaded):\n  %s",
 					sr.job.Spec, short(sr.keys[k].Ref), len(ops), len(min), strings.Join(lines, "\n  ")),
 				map[string]any{"case_id": sr.job.ID, "job": sr.job, "blob": sr.keys[k].Ref.String(), "blob_size": len(sr.keys[k].Data), "minimal_history": min, "full_history_ops": len(ops)})
@@ -833,4 +962,65 @@ func maxConcurrency(cs []*call) int {
 		}
 	}
 	return max
+}
+
+// ownScript is the program of owner cl on its own blobs: per blob a sequence of writes, each
+// followed directly by reads of the same client; the blobs' sequences are interleaved.
+func (sr *storeRun) ownScript(crng *rand.Rand, cl int, canRemove bool) []*call {
+	job := sr.job
+	read := func(k int) *call {
+		switch crng.Intn(4) {
+		case 0:
+			return &call{Client: cl, Op: "fetch", Keys: []int{k}}
+		case 1:
+			s := sr.keys[k].Ref.String()
+			return &call{Client: cl, Op: "enumerate", After: s[:len(s)-1], Limit: 1}
+		case 2:
+			return &call{Client: cl, Op: "stat-batch", Keys: []int{k, crng.Intn(sr.nHot)}}
+		}
+		return &call{Client: cl, Op: "stat", Keys: []int{k}}
+	}
+	var seqs [][]*call
+	for j := 0; j < job.OwnBlobs; j++ {
+		k := sr.own0 + cl*job.OwnBlobs + j
+		var q []*call
+		w := func(op string) {
+			q = append(q, &call{Client: cl, Op: op, Keys: []int{k}}, read(k))
+			if crng.Intn(2) == 0 {
+				q = append(q, read(k))
+			}
+		}
+		switch {
+		case job.Mode == "ackearly":
+			q = append(q, read(k)) // pre-loaded
+			w("remove")
+			w("receive")
+		case !canRemove:
+			w("receive")
+			w("receive")
+		default:
+			for rep := 0; rep < 3; rep++ {
+				w("receive")
+				w("remove")
+			}
+		}
+		seqs = append(seqs, q)
+	}
+	// interleave write-groups of the blobs round robin
+	var out []*call
+	for len(seqs) > 0 {
+		var rest [][]*call
+		for _, q := range seqs {
+			n := 1
+			for n < len(q) && q[n].Op != "receive" && q[n].Op != "remove" {
+				n++
+			}
+			out = append(out, q[:n]...)
+			if n < len(q) {
+				rest = append(rest, q[n:])
+			}
+		}
+		seqs = rest
+	}
+	return out
 }
